@@ -220,16 +220,14 @@ static bool String_Mem(var self, var obj) {
 
 static void String_Rem(var self, var obj) {
   
-  struct C_Str* c = instance(obj, C_Str);
-  if (c and c->c_str) {
-    char* pos = strstr(String_C_Str(self), c->c_str(obj));
-    if (pos is NULL) {
-      throw(ValueError, "Object %$ not in String!", obj);
-      return;
-    }
-    size_t count = strlen(pos) - strlen(c->c_str(obj)) + 1;
-    memmove((char*)pos, pos + strlen(c->c_str(obj)), count);
+  char* sub = c_str(obj);
+  char* pos = strstr(String_C_Str(self), sub);
+  if (pos is NULL) {
+    throw(ValueError, "Object %$ not in String!", obj);
+    return;
   }
+  size_t count = strlen(pos) - strlen(sub) + 1;
+  memmove((char*)pos, pos + strlen(sub), count);
   
 }
 
